@@ -34,6 +34,9 @@ FAMILIES = [  # heaviest first
     dict(name="core", n=4, fork=100000, depth=(3, 4), paths=(350, 3000), bytes=(24, 24), conc=True),
     dict(name="time", n=4, fork=100000, depth=(2, 3), paths=(60, 500), bytes=(10, 40), conc=False),
     dict(name="psig", n=4, fork=100000, depth=(2, 3), paths=(60, 600), bytes=(30, 140), conc=True),
+    # round/slot windows of every role over the whole range of rounds and reception times, fresh signer state (depth 1:
+    # only the window rules decide); bytes 0 = no byte perturbation of this family
+    dict(name="roundwin", n=4, fork=100000, depth=(1, 1), paths=(0, 0), bytes=(0, 0), conc=False),
     dict(name="bounds", n=4, fork=100000, depth=(2, 3), paths=(0, 400), bytes=(60, 300), conc=False),
     dict(name="bounds7", n=7, fork=100000, depth=(2, 3), paths=(0, 400), bytes=(40, 200), conc=False),
     dict(name="seven", n=7, fork=100000, depth=(2, 3), paths=(0, 800), bytes=(15, 100), conc=False),
@@ -43,6 +46,7 @@ FAMILIES = [  # heaviest first
 JVM_SMALL = "1g -XX:ParallelGCThreads=1 -XX:TieredStopAtLevel=1"   # short runs (attack configs, small traces)
 JVM_TRACE = "3g -XX:ParallelGCThreads=2"
 JVM_MC = "6g -XX:ParallelGCThreads=4"
+JVM_MC_QUICK = "2g -XX:ParallelGCThreads=2 -XX:TieredStopAtLevel=1"   # quick configs are < 120 k edges: C1 only halves wall and CPU (measured)
 C08_SIGS = ("validator-panic", "validator-hang", "unbounded-allocation", "decoder-panic:")
 
 
@@ -144,7 +148,7 @@ def _family(fam, tier, seed, pw, binary, pool):
     # 1. exhaustive model checking of the faithful spec; the same run exports the alphabet
     budget = 100 if tier == "quick" else 900
     r = vlib.tlc("MCMsgValidation", "mc.cfg", name="mv-" + name, workers=4 if tier == "quick" else 8, timeout=budget + 300,
-                 stop_after=budget, files={"mc.cfg": cfg_text(cfg, pw)}, keep=True, heap=JVM_MC)
+                 stop_after=budget, files={"mc.cfg": cfg_text(cfg, pw)}, keep=True, heap=JVM_MC_QUICK if tier == "quick" else JVM_MC)
     try:
         if r.error:
             raise vlib.MachineryError("TLC error in %s: %s" % (cfg, r.error[:2000]))
@@ -177,8 +181,11 @@ def _family(fam, tier, seed, pw, binary, pool):
     chunks = _chunks(tr, 30000 if tier == "quick" else 60000)
     futs = [pool.submit(_validate_trace, cfg, pw, alphabet_json, ch, "mvt-%s-%d" % (name, k)) for k, ch in enumerate(chunks)]
     # 4. byte-level perturbation of the concretised messages (exploration), validator + decoders
-    resb, reprosb = _driver(binary, ["-mode", "bytes", "-maxmsgs", str(fam["bytes"][q]), "-flips", "12" if tier == "quick" else "48",
-                                     "-out", os.path.join(wd, "bytes.json")] + base)
+    if fam["bytes"][q] > 0:
+        resb, reprosb = _driver(binary, ["-mode", "bytes", "-maxmsgs", str(fam["bytes"][q]), "-flips", "12" if tier == "quick" else "48",
+                                         "-out", os.path.join(wd, "bytes.json")] + base)
+    else:
+        resb, reprosb = dict(behaviours=0, steps=0, counters={}, violations=[]), []
     out["bytes"] = dict(messages=resb["behaviours"], validator_inputs=resb["steps"], decoder_inputs=resb["counters"].get("decoder_inputs", 0),
                         record_inputs=resb["counters"].get("record_inputs", 0), subnet_inputs=resb["counters"].get("subnet_inputs", 0),
                         perturbed_accepted=resb["counters"].get("perturbed_accepted", 0))
@@ -283,13 +290,16 @@ def run_shared(tier, seed):
 
 
 def _run(tier, seed, binary, pw):
+    if tier == "quick":
+        # the graph dumps (cover, schedules) go through vlib.tlc without a heap argument: small C1-only JVMs for them too
+        os.environ.setdefault("VERIF_TLC_HEAP", JVM_MC_QUICK)
     log("[msgval] tree under test %s: partial-signature slot window %s, slot overflow guard %s" %
         (vlib.REPO, "PRESENT" if pw["partial_window"] else "absent (pinned code)", "PRESENT" if pw["overflow_guard"] else "absent (pinned code)"))
     q = 0 if tier == "quick" else 1
     res = dict(tier=tier, seed=seed, variant=pw, families=[], violations=[], divergences=0, states=0, transitions=0,
                traces=0, evaluations=0, nontrivial=0, attack_traces=0, notes=[])
     pool = ThreadPoolExecutor(8)
-    fam_pool = ThreadPoolExecutor(5 if tier == "quick" else 2)
+    fam_pool = ThreadPoolExecutor(6 if tier == "quick" else 2)
     only = os.environ.get("VERIF_MSGVAL_FAMILIES")  # development aid: restrict the run to some families (never cached)
     families = [f for f in FAMILIES if not only or f["name"] in only.split(",")]
     fam_futs = [fam_pool.submit(_family, fam, tier, seed, pw, binary, pool) for fam in families]
@@ -470,7 +480,7 @@ def finish(prop, tier, seed, res, t0):
                 "model-generated messages fed to the validator and to DecodeSignedSSVMessage, DecodeNetworkMsg, queue.DecodeSSVMessage, "
                 "NodeInfo/SignedNodeInfo Consume+UnmarshalRecord, NodeMetadata.Decode, Subnets.FromString" % bytes_tot)
         assumptions = ["arbitrary byte strings are only explored by seeded perturbation of model-generated messages (DESIGN.md section 7): the byte half is exploration",
-                       "allocation ceiling 96 MiB per call, hang = no return within 2 s (10 s in bulk mode)",
+                       "allocation ceiling 96 MiB per call, hang = a call slower than 2 s that is that slow again three times in a row when repeated (a stall of a loaded machine is not), or no return within 30 s in bulk mode",
                        "messages larger than a few KiB (8 MiB pubsub limit) are not generated"]
     else:
         rule = ("every (accepted prefix, message class, time point) of the alphabets up to the sweep depth on the real validator; the monitor evaluates "
@@ -478,9 +488,15 @@ def finish(prop, tier, seed, res, t0):
                 "accept => GossipOK on every edge of every config and validates every recorded call; non-trivial = distinct prefixes with >= 1 "
                 "previously accepted message (replayed behaviours: >= 2 accepted messages; schedules: >= 3 concurrent calls). Concurrency: every "
                 "Arrive/Enter/Leave interleaving of MsgValidationConc (graph cover) and the 3-party attack schedules of the weakened lock are replayed "
-                "deterministically with a gate inside the critical section (verif hook)")
+                "deterministically with a gate inside the critical section (verif hook). Family roundwin: the slot and round windows of the five "
+                "consensus roles on a fresh signer state, rounds 0..max+2 x reception times 1.5 s and 0.5 s before and 0.5 s and 1.5 s after every "
+                "boundary of the estimated-round step function (2, 4, .., 16, 136, 256, 376 s), the slot start, the last second before the slot and "
+                "both sides of the late-slot deadline (thorough: every second of the first minute, +-6 s around the slow boundaries, two points per "
+                "later slot); the model computes the windows in milliseconds with the code's constants")
         assumptions = ["exhaustive results hold for the stated alphabets (committee 4 and 7, <= 2 tracked single signers, the listed slot/round/time classes)",
-                       "the clock is virtual (re-based genesis); time points are kept >= 0.5 s away from every boundary; steps slower than 300 ms are not compared",
+                       "the clock is virtual (re-based genesis); time points are whole seconds + 0.5 s, i.e. 0.5 s away from every boundary of the gate (all are "
+                       "whole seconds); steps slower than 300 ms are not compared; the last second of a slot (where the code's truncated clock may already "
+                       "show the next slot) is used only where TLC shows the verdict does not depend on it (ClockRobust)",
                        "BLS signatures are not verified by the gate (as in the code); RSA envelopes use real generated operator keys",
                        "known findings (named deviations of the spec, reported by the monitor when the tree has them): accepted:partial-sig-outside-slot-window, accepted:slot-time-overflow"]
     samples = []
